@@ -106,7 +106,12 @@ CFG = dict(
     assumptions=["each process_ccq_entry callback and each packet's conntrack update is atomic (the window between the "
                  "cleaner's lookup and its delete is not modelled)",
                  "bpf_ktime_get_ns is monotone; every dataplane write to an entry stores the current kernel time in last_seen",
-                 "all configured timeouts are >= 0; last_seen values are < 2^63 (int64/uint64 conversions are the identity)",
+                 "a scanner iteration callback takes at least one unit of kernel time (Model.tick1; the driver's clock ticks "
+                 "the same way) - this replaces any assumption on the sign of the configured timeouts",
+                 "last_seen values are < 2^63 (int64/uint64 conversions are the identity); timestamps in the start state are "
+                 "not in the future",
+                 "NAT reverse keys have a non-zero IP protocol (the kernel cleaner treats rev_key.protocol == 0 as the dummy key); "
+                 "the generator never points a forward entry at a protocol-0 key",
                  "no conntrack entry has the all-zero key; a non-forward entry's first 16 leg bytes never equal a queued reverse key",
                  "Scanner configured with a BPF cleaner and the LivenessScanner as only entry scanner; fewer than 1000 expired "
                  "entries per scan (one cleaner run per scan)",
